@@ -158,6 +158,16 @@ def r27_3(ctx, rep):
                path=cfg.describe(w) if w else "")
 
 
+@SPEC.rule(
+    "R27.4",
+    "every file of the library takes part in the merge: each *.mo file found by _compile_model's walk is parsed and merged into the "
+    "tree (package.mo occurs once per package directory — a skip by base name drops all but the first package's own file)",
+)
+def r27_4(ctx, rep):
+    from .c20 import compile_walk_total
+    compile_walk_total(ctx, rep, "R27.4")
+
+
 # -- seeded variants ---------------------------------------------------------
 from ._mut import delete_stmt_where, replace_in_func  # noqa: E402
 
